@@ -24,6 +24,7 @@ fn item_src(it: &Value, derive: &str) -> String {
         "badshape" => if v { format!("{}(named, bogus)", n) } else { format!("{}(struct_named, struct_bogus)", n) },
         "litshape" => if v { format!("{}(named, \"unit\")", n) } else { format!("{}(struct_named, \"enum_any\")", n) },
         "nvshape" => if v { format!("{}(named, unit = true)", n) } else { format!("{}(struct_any, enum_unit = true)", n) },
+        "pathshape" => if v { format!("{}(named, shapes::unit)", n) } else { format!("{}(struct_named, ::shapes::enum_unit)", n) },
         "anybad" => if v { format!("{}(any, bogus)", n) } else { format!("{}(any, struct_bogus)", n) },
         "dblprefix" => if v { format!("{}(named_named)", n) } else { format!("{}(struct_struct_named)", n) },
         f => panic!("form {}", f),
@@ -248,10 +249,10 @@ const FIELD_ALPHA: [(&str, &str); 25] = [
 const VARIANT_ALPHA: [(&str, &str); 12] = [
     ("rename", "str"), ("rename", "true"), ("skip", "word"), ("skip", "false"), ("word", "word"), ("word", "false"), ("word", "str"), ("bogus", "str"), ("@bare", ""), ("@nv", ""), ("@lit", ""), ("@junk", ""),
 ];
-const CONT_ALPHA: [(&str, &str); 33] = [
+const CONT_ALPHA: [(&str, &str); 34] = [
     ("default", "word"), ("default", "words"), ("rename_all", "rule"), ("rename_all", "str"), ("map", "str"), ("and_then", "str"), ("allow_unknown_fields", "word"),
     ("allow_unknown_fields", "str"), ("attributes", "words"), ("attributes", "str"), ("forward_attrs", "word"), ("forward_attrs", "words"), ("forward_attrs", "empty"), ("from_ident", "word"),
-    ("from_word", "path"), ("from_word", "str"), ("from_none", "closure"), ("supports", "shapes"), ("supports", "badshape"), ("supports", "dblprefix"), ("supports", "anybad"), ("supports", "litshape"), ("supports", "nvshape"), ("bound", "preds"), ("bound", "str"), ("::map", "str"), ("::default", "word"), ("bogus", "words"),
+    ("from_word", "path"), ("from_word", "str"), ("from_none", "closure"), ("supports", "shapes"), ("supports", "badshape"), ("supports", "dblprefix"), ("supports", "anybad"), ("supports", "litshape"), ("supports", "nvshape"), ("supports", "pathshape"), ("bound", "preds"), ("bound", "str"), ("::map", "str"), ("::default", "word"), ("bogus", "words"),
     ("bogus", "word"), ("@bare", ""), ("@nv", ""), ("@lit", ""), ("@junk", ""),
 ];
 
